@@ -125,6 +125,11 @@ fn check_processes(src: &Sources, runs: usize, st: &mut Stats) -> Vec<Violation>
     let mut first: Option<String> = None;
     for i in 0..runs {
         let target = format!("out{i}.yaml");
+        // the last target already exists and holds another, longer document (a target is normally regenerated)
+        if i + 1 == runs {
+            let _ = std::fs::write(dir.path.join(&target), format!("previous: generation\nof: the target\npadding: \"{}\"\n", "x".repeat(60_000)));
+            st.inc("cli_runs_over_an_existing_longer_target");
+        }
         // same sources at the same locations, addressed from different working directories
         let r = match i % 4 {
             1 => {
